@@ -98,6 +98,14 @@ type C16Spec struct {
 	// start barrier, Own-1 more after the prologue, and one for every other
 	// table, which is then also rendered in its house style
 	Own int `json:"own_decorations,omitempty"`
+	// Kinds: every goroutine also owns Kinds tables whose cells hold items of
+	// every Go kind, of types all goroutines have in common, zero and non-zero
+	// values (c16_r6.go); rendered in the five core formats
+	Kinds int `json:"kind_tables,omitempty"`
+	// Hammer: every goroutine also renders one small table of its own Hammer
+	// times in each core format class of Formats (all five when Formats is
+	// empty): schedules dense in one renderer (c16_r6.go)
+	Hammer int `json:"hammer,omitempty"`
 	// StuckAfter: seconds without any render finishing after which the child
 	// looks whether all its goroutines are blocked (default 3)
 	StuckAfter int `json:"stuck_after_s,omitempty"`
@@ -643,6 +651,14 @@ func c16RunProgramme(spec C16Spec, g int, prog []c16Tab, names, formats []string
 		out = append(out, c16Errors(t))
 		labels = append(labels, fmt.Sprintf("table %d errors held at the end", k))
 	}
+	if spec.Kinds > 0 {
+		o, l := c16KindTables(spec, g)
+		out, labels = append(out, o...), append(labels, l...)
+	}
+	if spec.Hammer > 0 {
+		o, l := c16Hammer(spec, g, strings.HasPrefix(salt, "conc"))
+		out, labels = append(out, o...), append(labels, l...)
+	}
 	if g < spec.Tall && c16WantsDecorations(spec) {
 		t := c16TallTable(g)
 		for _, f := range []string{"texttable:" + names[g%len(names)], "auto:" + names[(g+1)%len(names)]} {
@@ -1160,16 +1176,17 @@ func c16RunCase(spec C16Spec) CaseOut {
 	tags := append([]string{"kind=run", fmt.Sprintf("goroutines=%d", spec.G), fmt.Sprintf("gomaxprocs=%d", spec.Procs),
 		fmt.Sprintf("readers=%d", spec.Readers), fmt.Sprintf("tables-per-goroutine=%d", spec.Tables), "formats=" + fclass,
 		fmt.Sprintf("every-table-in-every-format=%v", spec.Full), fmt.Sprintf("cold-start=%v", spec.ColdFirst), fmt.Sprintf("reference-in-own-process=%v", spec.Pristine),
-		fmt.Sprintf("tall-tables=%d", spec.Tall), fmt.Sprintf("style-storm=%v", spec.Storm > 0), fmt.Sprintf("own-decorations-registered-concurrently=%v", spec.Own > 0), fmt.Sprintf("race=%v", obs.Race), fmt.Sprintf("race-detector=%v", obs.RaceDetect)}, outcomeTags...)
+		fmt.Sprintf("tall-tables=%d", spec.Tall), fmt.Sprintf("style-storm=%v", spec.Storm > 0), fmt.Sprintf("own-decorations-registered-concurrently=%v", spec.Own > 0),
+		fmt.Sprintf("items-of-every-kind=%v", spec.Kinds > 0), fmt.Sprintf("dense-in-one-renderer=%v", spec.Hammer > 0), fmt.Sprintf("race=%v", obs.Race), fmt.Sprintf("race-detector=%v", obs.RaceDetect)}, outcomeTags...)
 	if obs.Result != nil && obs.Result.ErrTables > 0 {
 		tags = append(tags, "tables-recording-errors")
 	}
 	return CaseOut{
 		Coq:        term,
 		Desc:       obs,
-		Size:       spec.G*spec.Tables*spec.Iters*(1+spec.MaxRows*spec.MaxCells) + spec.Readers + spec.G*spec.Own,
+		Size:       spec.G*spec.Tables*spec.Iters*(1+spec.MaxRows*spec.MaxCells) + spec.Readers + spec.G*spec.Own + spec.G*spec.Iters*(4*spec.Kinds+spec.Hammer/8),
 		Tags:       tags,
-		Key:        fmt.Sprintf("%d/%d/%d/%d/%d/%d/%s/%v/%v/%s", spec.Seed, spec.G, spec.Procs, spec.Tables, spec.Iters, spec.Readers, fclass, spec.ColdFirst, spec.Pristine, obs.Sig) + fmt.Sprintf("/tall%d/storm%d/own%d", spec.Tall, spec.Storm, spec.Own),
+		Key:        fmt.Sprintf("%d/%d/%d/%d/%d/%d/%s/%v/%v/%s", spec.Seed, spec.G, spec.Procs, spec.Tables, spec.Iters, spec.Readers, fclass, spec.ColdFirst, spec.Pristine, obs.Sig) + fmt.Sprintf("/tall%d/storm%d/own%d/kinds%d/hammer%d", spec.Tall, spec.Storm, spec.Own, spec.Kinds, spec.Hammer),
 		Nontrivial: spec.G >= 2 && renders > 0,
 	}
 }
@@ -1277,6 +1294,32 @@ func c16Shrink(raw json.RawMessage) []json.RawMessage {
 			add(c)
 		}
 	}
+	if s.Kinds > 0 {
+		c := s
+		c.Kinds = 0
+		add(c)
+		c = s
+		c.Tables, c.Iters, c.MaxRows, c.MaxCells, c.Tall, c.Storm, c.Own, c.Hammer, c.Readers = 1, 1, 1, 1, 0, 0, 0, 0, 0 // the kind tables and little else
+		add(c)
+		if s.Kinds > 1 {
+			c = s
+			c.Kinds = (s.Kinds + 1) / 2
+			add(c)
+		}
+	}
+	if s.Hammer > 0 {
+		c := s
+		c.Hammer = 0
+		add(c)
+		c = s
+		c.Tables, c.Iters, c.MaxRows, c.MaxCells, c.Tall, c.Storm, c.Own, c.Kinds, c.Readers = 1, 1, 1, 1, 0, 0, 0, 0, 0 // the dense renders and little else
+		add(c)
+		if s.Hammer > 50 {
+			c = s
+			c.Hammer = (s.Hammer + 1) / 2
+			add(c)
+		}
+	}
 	if s.Tall > 0 {
 		c := s
 		c.Tall = 0
@@ -1323,6 +1366,7 @@ func init() {
 			"In three quarters of the cases (tag own-decorations-registered-concurrently) the goroutines also WRITE the registry, each under names of its own: the first thing every goroutine does after the start barrier is to register a decoration under a name nobody else uses (decoration.RegisterDecorationName), 3-12 such house styles follow after the first lookups and one more for every other table; each is looked up (Named, also before it is registered and under a name nobody registers), selected on a table of the goroutine's own (SetDecorationNamed + Render, auto.Render with the name, with texttable.<name>, and with a trailing sub-style section so that auto first probes a longer name that is not registered), looked for in RegisteredDecorationNames / auto.ListStyles, every third one is re-registered with another decoration and selected again; the table that got a house style is rendered in it four ways. A name is fresh whenever it is registered (it carries the phase), plain, dotted or upper-case, and is not part of any output. Every goroutine logs what it did about its own names and the answers it got (OpW/OpR/OpL); Coq judges the log against the goroutine's solo run on the registry model (own_ok; by c16_own_oracle_any_schedule what every interleaving gives on the model); after the join every registered name must hold what its goroutine registered last and be listed; the readers' listings must be strictly sorted and may only grow, and only by such names. " +
 			"A watchdog in the child: when nothing (no render, no registry operation of those rounds) has finished for 3 s and a dump of all goroutines shows every goroutine of the run blocked - none running, runnable or sleeping - twice, one second apart, the run is reported as stuck (ok = false) instead of waiting for ever. " +
 			"Reference ('rendered alone'): the same programmes run alone in the same process, twice (before the goroutines in warm cases; in cold cases - half - after them, and then the process does not touch the library or the registry before the goroutines do: built-in names are constants, readers check their own first answers against the registry afterwards); in a third of the cases (8-12 goroutines) each goroutine's reference is instead computed in a pristine child process of its own and the same-process solo run is the correspondence side. Goroutine count, GOMAXPROCS (1..16), tables, iterations vary by seed. " +
+			"Round 6, two more kinds of case: (items-of-every-kind=true) 8-12 goroutines, each with a reference from a process of its own, also own 2-4 tables whose cells hold items of every Go kind whose text form holds no address - the integer, float and complex kinds, string, array, slice, map, struct, pointer to struct, interface, nil; per kind several types (plain, with encoding/json field options, with unexported fields only, with String / MarshalJSON / MarshalText methods, an error value) - the types common to all goroutines, the values (the zero value 40% of the time, else small non-zero ones) each goroutine's own, rendered in the five formats; (dense-in-one-renderer=true) one case per format class (csv, json, markdown, html, texttable): 8-16 goroutines, a minimal programme in that class only, and then each renders a small table of its own (2 columns, 4-8 rows, a few texts of the pool of texts needing escaping and of the shared short texts repeated down each column, a different few per goroutine; rebuilt every fourth turn) 400 times (thorough: 1500) in that class, all goroutines at the same time; the distinct outputs per goroutine are compared with what the table gives alone (one). " +
 			"A case is non-trivial when at least two goroutines rendered concurrently; distinct = distinct (seed, goroutines, GOMAXPROCS, tables, iterations, readers, formats, outcome)",
 		Exhaustive: "",
 		Gen: func(r *RNG, tier string) []json.RawMessage {
@@ -1391,6 +1435,7 @@ func init() {
 				}
 				out = append(out, mustJSON(s))
 			}
+			out = append(out, c16R6Cases(r, tier)...)
 			// the inventory case comes last: it has been running in the background meanwhile
 			out = append(out, mustJSON(C16Spec{Kind: "facts"}))
 			return out
